@@ -1,4 +1,5 @@
 import EE.Lemmas.Pratt
+import EE.Lemmas.ParserLim
 import EE.Props.C05
 /-! # C02 — operators group exactly by the documented precedence and associativity
 
@@ -466,5 +467,218 @@ theorem example_parse :
     .ok (.unary notName (.binary ['=', '='] (.binary ['+'] (.lit (.num (d 1))) (.binary ['*'] (.lit (.num (d 2))) (.lit (.num (d 3)))))
       (.lit (.num (d 7))))) :=
   groups_as_written_builtin exampleCst example_canon example_fits
+
+/-! ## every sentence of the grammar has a canonical reading — and it is what the parser returns -/
+
+/-- a postfix operator written after a primary goes under the primary's prefix operators -/
+def pushPostfix : CST → Name → CST
+  | .unary o' c', o => .unary o' (pushPostfix c' o)
+  | c, o => .postfix c o
+
+theorem pushPostfix_flatten : ∀ (c : CST) (o : Name), (pushPostfix c o).flatten = c.flatten ++ [.op o]
+  | .unary o' c', o => by simp only [pushPostfix, CST.flatten, pushPostfix_flatten c' o, List.cons_append]
+  | .atom _, _ | .paren _, _ | .postfix _ _, _ | .call _ _, _ | .list _ _, _ | .map _ _, _ | .bin _ _ _ _, _ | .tern _ _ _, _ => by
+    simp [pushPostfix, CST.flatten]
+
+theorem pushPostfix_primary : ∀ (c : CST) (o : Name), (pushPostfix c o).isPrimary = true
+  | .unary _ _, _ => rfl
+  | .atom _, _ | .paren _, _ | .postfix _ _, _ | .call _ _, _ | .list _ _, _ | .map _ _, _ | .bin _ _ _ _, _ | .tern _ _ _, _ => rfl
+
+theorem pushPostfix_canon {regs : Regs} : ∀ (c : CST) (o : Name), Canon regs c → c.isPrimary = true → regs.isPostfix o = true →
+    Canon regs (pushPostfix c o)
+  | .unary o' c', o, hc, _, ho => ⟨hc.1, pushPostfix_primary c' o, pushPostfix_canon c' o hc.2.2 hc.2.1 ho⟩
+  | .atom _, _, hc, _, ho | .paren _, _, hc, _, ho | .postfix _ _, _, hc, _, ho | .call _ _, _, hc, _, ho
+  | .list _ _, _, hc, _, ho | .map _ _, _, hc, _, ho => ⟨ho, rfl, hc⟩
+  | .bin _ _ _ _, _, _, hp, _ | .tern _ _ _, _, _, hp, _ => by simp [isPrimary] at hp
+
+theorem chainToks_append (p₀ : CST) (ops : List (Bool × Name × CST)) (nt : Bool) (o : Name) (q₀ : CST) (ops' : List (Bool × Name × CST)) :
+    chainToks p₀ (ops ++ (nt, o, q₀) :: ops') = chainToks p₀ ops ++ (opToks nt o ++ chainToks q₀ ops') := by
+  simp [chainToks, List.append_assoc]
+
+def OpsOK (regs : Regs) (ops : List (Bool × Name × CST)) : Prop :=
+  ∀ x ∈ ops, regs.isInfix x.2.1 = true ∧ Canon regs x.2.2 ∧ x.2.2.isPrimary = true
+
+mutual
+theorem gtok_canon {regs : Regs} (tb : TableOK regs) : ∀ {ts : List Tok} {e : AST}, GTok regs ts e →
+    ∃ c, Canon regs c ∧ c.flatten = ts ∧ c.isPrimary = true
+  | _, _, .num d => ⟨.atom (.num d), trivial, rfl, rfl⟩
+  | _, _, .bool b => ⟨.atom (.bool b), trivial, rfl, rfl⟩
+  | _, _, .str s => ⟨.atom (.str s), trivial, rfl, rfl⟩
+  | _, _, .ref n => ⟨.atom (.ref n), trivial, rfl, rfl⟩
+  | _, _, .call0 n => ⟨.call n .nil, trivial, rfl, rfl⟩
+  | _, _, .call (n := n) h => by
+    obtain ⟨xs, hc, _, hf⟩ := gargs_canon tb h
+    exact ⟨.call n xs, hc, by simp [CST.flatten, hf], rfl⟩
+  | _, _, .unary (o := o) hp h => by
+    obtain ⟨c, hc, hf, hpr⟩ := gprim_canon tb h
+    exact ⟨.unary o c, ⟨hp, hpr, hc⟩, by simp [CST.flatten, hf], rfl⟩
+  | _, _, .paren h => by
+    obtain ⟨c, hc, hf⟩ := gexpr_canon tb h
+    exact ⟨.paren c, hc, by simp [CST.flatten, hf], rfl⟩
+  | _, _, .list h => by
+    obtain ⟨xs, tr, hc, htr, hf⟩ := gitems_canon tb h
+    exact ⟨.list xs tr, ⟨hc, htr⟩, by simp [CST.flatten, ← hf, List.append_assoc], rfl⟩
+  | _, _, .map h => by
+    obtain ⟨xs, tr, hc, htr, hf⟩ := gentries_canon tb h
+    exact ⟨.map xs tr, ⟨hc, htr⟩, by simp [CST.flatten, ← hf, List.append_assoc], rfl⟩
+theorem gprim_canon {regs : Regs} (tb : TableOK regs) : ∀ {ts : List Tok} {e : AST}, GPrim regs ts e →
+    ∃ c, Canon regs c ∧ c.flatten = ts ∧ c.isPrimary = true
+  | _, _, .tok h => gtok_canon tb h
+  | _, _, .postfix (o := o) h hp => by
+    obtain ⟨c, hc, hf, hpr⟩ := gprim_canon tb h
+    exact ⟨pushPostfix c o, pushPostfix_canon c o hc hpr hp, by rw [pushPostfix_flatten, hf], pushPostfix_primary c o⟩
+theorem gbin_canon {regs : Regs} (tb : TableOK regs) : ∀ {ts : List Tok} {e : AST}, GBin regs ts e →
+    ∃ p₀ ops, Canon regs p₀ ∧ p₀.isPrimary = true ∧ OpsOK regs ops ∧ chainToks p₀ ops = ts
+  | _, _, .prim h => by
+    obtain ⟨c, hc, hf, hpr⟩ := gprim_canon tb h
+    exact ⟨c, [], hc, hpr, (by intro x hx; cases hx), by simp [chainToks, hf]⟩
+  | _, _, .bin (o := o) hl ho hr => by
+    obtain ⟨p₀, ops, hc, hpr, hops, hf⟩ := gbin_canon tb hl
+    obtain ⟨q₀, ops', hc', hpr', hops', hf'⟩ := gbin_canon tb hr
+    refine ⟨p₀, ops ++ (false, o, q₀) :: ops', hc, hpr, ?_, by rw [chainToks_append, hf, hf']; simp [opToks]⟩
+    intro x hx
+    simp only [List.mem_append, List.mem_cons] at hx
+    rcases hx with hx | rfl | hx
+    · exact hops x hx
+    · exact ⟨ho, hc', hpr'⟩
+    · exact hops' x hx
+  | _, _, .notBin (o := o) hl ho hr => by
+    obtain ⟨p₀, ops, hc, hpr, hops, hf⟩ := gbin_canon tb hl
+    obtain ⟨q₀, ops', hc', hpr', hops', hf'⟩ := gbin_canon tb hr
+    refine ⟨p₀, ops ++ (true, o, q₀) :: ops', hc, hpr, ?_, by rw [chainToks_append, hf, hf']; simp [opToks]⟩
+    intro x hx
+    simp only [List.mem_append, List.mem_cons] at hx
+    rcases hx with hx | rfl | hx
+    · exact hops x hx
+    · exact ⟨ho, hc', hpr'⟩
+    · exact hops' x hx
+theorem gexpr_canon {regs : Regs} (tb : TableOK regs) : ∀ {ts : List Tok} {e : AST}, GExpr regs ts e →
+    ∃ c, Canon regs c ∧ c.flatten = ts
+  | _, _, .bin h => by
+    obtain ⟨p₀, ops, hc, hpr, hops, hf⟩ := gbin_canon tb h
+    have := canonize_spec regs tb ops p₀ hc (primary_shape hpr).2.2.1 hops
+    exact ⟨_, this.1, by rw [this.2.2, hf]⟩
+  | _, _, .tern hc ha hb => by
+    obtain ⟨p₀, ops, hcc, hpr, hops, hf⟩ := gbin_canon tb hc
+    have hcan := canonize_spec regs tb ops p₀ hcc (primary_shape hpr).2.2.1 hops
+    obtain ⟨a, hca, hfa⟩ := gexpr_canon tb ha
+    obtain ⟨b, hcb, hfb⟩ := gexpr_canon tb hb
+    exact ⟨.tern (canonize regs p₀ ops) a b, ⟨hcan.1, hcan.2.1, hca, hcb⟩, by simp [CST.flatten, hcan.2.2, hf, hfa, hfb]⟩
+theorem gargs_canon {regs : Regs} (tb : TableOK regs) : ∀ {ts : List Tok} {es : List AST}, GArgs regs ts es →
+    ∃ xs, CanonList regs xs ∧ xs ≠ .nil ∧ xs.flatten = ts
+  | _, _, .one h => by
+    obtain ⟨c, hc, hf⟩ := gexpr_canon tb h
+    exact ⟨.cons c .nil, ⟨hc, trivial⟩, (by intro e; cases e), by simp [CList.flatten, hf]⟩
+  | _, _, .cons h hr => by
+    obtain ⟨c, hc, hf⟩ := gexpr_canon tb h
+    obtain ⟨xs, hxs, hne, hfx⟩ := gargs_canon tb hr
+    refine ⟨.cons c xs, ⟨hc, hxs⟩, (by intro e; cases e), ?_⟩
+    cases xs with
+    | nil => exact absurd rfl hne
+    | cons c2 r2 => simp only [CList.flatten, hf, ← hfx]
+theorem gitems_canon {regs : Regs} (tb : TableOK regs) : ∀ {ts : List Tok} {es : List AST}, GItems regs ts es →
+    ∃ xs tr, CanonList regs xs ∧ (tr = true → xs ≠ .nil) ∧ xs.flatten ++ trailToks tr = ts
+  | _, _, .nil => ⟨.nil, false, trivial, fun e => (by cases e), rfl⟩
+  | _, _, .one h => by
+    obtain ⟨c, hc, hf⟩ := gexpr_canon tb h
+    exact ⟨.cons c .nil, false, ⟨hc, trivial⟩, fun e => (by cases e), by simp [CList.flatten, trailToks, hf]⟩
+  | _, _, .cons h hr => by
+    obtain ⟨c, hc, hf⟩ := gexpr_canon tb h
+    obtain ⟨xs, tr, hxs, htr, hfx⟩ := gitems_canon tb hr
+    cases xs with
+    | nil =>
+      have : tr = false := by cases tr with | false => rfl | true => exact absurd rfl (htr rfl)
+      subst this
+      refine ⟨.cons c .nil, true, ⟨hc, trivial⟩, fun _ => (by intro e; cases e), ?_⟩
+      simp only [CList.flatten, trailToks, List.append_nil] at hfx ⊢
+      simp [hf, ← hfx]
+    | cons c2 r2 =>
+      refine ⟨.cons c (.cons c2 r2), tr, ⟨hc, hxs⟩, fun _ => (by intro e; cases e), ?_⟩
+      simp only [CList.flatten, hf, ← hfx, List.append_assoc, List.cons_append]
+theorem gentries_canon {regs : Regs} (tb : TableOK regs) : ∀ {ts : List Tok} {es : List (AST × AST)}, GEntries regs ts es →
+    ∃ xs tr, CanonMap regs xs ∧ (tr = true → xs ≠ .nil) ∧ xs.flatten ++ trailToks tr = ts
+  | _, _, .nil => ⟨.nil, false, trivial, fun e => (by cases e), rfl⟩
+  | _, _, .one hk hv => by
+    obtain ⟨k, hck, hfk⟩ := gexpr_canon tb hk
+    obtain ⟨v, hcv, hfv⟩ := gexpr_canon tb hv
+    exact ⟨.cons k v .nil, false, ⟨hck, hcv, trivial⟩, fun e => (by cases e), by simp [CMap.flatten, trailToks, hfk, hfv]⟩
+  | _, _, .cons hk hv hr => by
+    obtain ⟨k, hck, hfk⟩ := gexpr_canon tb hk
+    obtain ⟨v, hcv, hfv⟩ := gexpr_canon tb hv
+    obtain ⟨xs, tr, hxs, htr, hfx⟩ := gentries_canon tb hr
+    cases xs with
+    | nil =>
+      have : tr = false := by cases tr with | false => rfl | true => exact absurd rfl (htr rfl)
+      subst this
+      refine ⟨.cons k v .nil, true, ⟨hck, hcv, trivial⟩, fun _ => (by intro e; cases e), ?_⟩
+      simp only [CMap.flatten, trailToks, List.append_nil] at hfx ⊢
+      simp [hfk, hfv, ← hfx]
+    | cons k2 v2 r2 =>
+      refine ⟨.cons k v (.cons k2 v2 r2), tr, ⟨hck, hcv, hxs⟩, fun _ => (by intro e; cases e), ?_⟩
+      simp only [CMap.flatten, hfk, hfv, ← hfx, List.append_assoc, List.cons_append]
+end
+
+/-- **Every sentence has a canonical reading.** -/
+theorem sentence_has_canonical_form (regs : Regs) (tb : TableOK regs) {ts : List Tok} {e : AST} (h : GExpr regs ts e) :
+    ∃ c, Canon regs c ∧ c.flatten = ts := gexpr_canon tb h
+
+/-- **… and it is the only thing the parser can return**: whenever the tokens of a canonical
+expression are accepted, at whatever nesting limit, the result is the tree it denotes. -/
+theorem accepted_reading (regs : Regs) (tb : TableOK regs) (lim : Nat) (c : CST) (hc : Canon regs c) (a : AST)
+    (h : parseTokens regs lim c.flatten = .ok a) : a = c.strip := by
+  have hle : lim ≤ max lim (max (c.nest + 1) c.strip.height) := Nat.le_max_left _ _
+  have h1 := parseTokens_lim_mono regs hle c.flatten a h
+  have hf : Fits (max lim (max (c.nest + 1) c.strip.height)) c := ⟨by omega, by omega⟩
+  rw [groups_as_written regs tb _ c hc hf] at h1
+  injection h1 with h1
+  exact h1.symm
+
+/-- Every accepted sentence: the parser's result is the tree of *the* canonical reading of the
+tokens — "exactly as the table dictates" for everything the parser accepts, not only for inputs
+somebody wrote canonically. -/
+theorem accepted_sentence_reading (regs : Regs) (tb : TableOK regs) (lim : Nat) {ts : List Tok} {e : AST} (hg : GExpr regs ts e)
+    (a : AST) (h : parseTokens regs lim ts = .ok a) : ∃ c, Canon regs c ∧ c.flatten = ts ∧ a = c.strip := by
+  obtain ⟨c, hc, hf⟩ := sentence_has_canonical_form regs tb hg
+  exact ⟨c, hc, hf, accepted_reading regs tb lim c hc a (by rw [hf]; exact h)⟩
+
+/-- the same with the optional `;` after the expression -/
+theorem groups_as_written_semi (regs : Regs) (tb : TableOK regs) (lim : Nat) (c : CST) (hc : Canon regs c) (hf : Fits lim c) :
+    parseTokens regs lim (c.flatten ++ [.semi]) = .ok c.strip := by
+  obtain ⟨hn, hh⟩ := hf
+  have hl : 1 ≤ lim := by omega
+  have m := main tb lim c 1 hc (by omega) hh
+  have hp := top_of_M (d := 0) tb hc (by omega) m [Tok.semi] (follow_semi regs [])
+  obtain ⟨t, ts, hfl, _⟩ := flatten_start c
+  have hfuel := PExpr.at_fuel hl tb.pos hp (4 * (c.flatten ++ [Tok.semi]).length + 7) (Nat.le_refl _)
+  unfold parseTokens parseFuel
+  rw [hfl] at hfuel ⊢
+  simp only [List.cons_append] at hfuel ⊢
+  simp only [parseStmts, hfuel, Res.bind_ok]
+
+/-- **Everything the parser accepts as one expression** (not a statement chain): the tokens are
+those of a canonical expression, optionally followed by `;`, and the result is the tree it denotes. -/
+theorem accepted_expression_reading (regs : Regs) (tb : TableOK regs) (lim : Nat) (hl : 1 ≤ lim) (toks : List Tok) (a : AST)
+    (h : parseTokens regs lim toks = .ok a) (hns : ∀ es, a ≠ .stmt es) :
+    ∃ c, Canon regs c ∧ (toks = c.flatten ∨ toks = c.flatten ++ [.semi]) ∧ a = c.strip := by
+  obtain ⟨es, hg, rfl⟩ := EE.Props.C05.parse_sound regs tb.pos lim hl toks a h
+  match es, hg with
+  | [], _ => exact absurd rfl (hns [])
+  | _ :: _ :: _, _ => exact absurd rfl (hns _)
+  | [e], .stmt (ts := ts) he hr =>
+    cases hr
+    obtain ⟨c, hc, hf⟩ := sentence_has_canonical_form regs tb he
+    refine ⟨c, hc, Or.inl (by simp [hf]), ?_⟩
+    exact accepted_reading regs tb lim c hc _ (by rw [hf]; simpa using h)
+  | [e], .stmtSemi (ts := ts) he hr =>
+    cases hr
+    obtain ⟨c, hc, hf⟩ := sentence_has_canonical_form regs tb he
+    refine ⟨c, hc, Or.inr (by simp [hf]), ?_⟩
+    -- a larger limit makes the canonical expression fit; the result cannot change
+    have hle : lim ≤ max lim (max (c.nest + 1) c.strip.height) := Nat.le_max_left _ _
+    have h1 := parseTokens_lim_mono regs hle _ _ h
+    have hfit : Fits (max lim (max (c.nest + 1) c.strip.height)) c := ⟨by omega, by omega⟩
+    rw [← hf, groups_as_written_semi regs tb _ c hc hfit] at h1
+    injection h1 with h1
+    exact h1.symm
 
 end EE.Props.C02
